@@ -332,7 +332,12 @@ inline XInst instantiate(const xdb::Form& f, int mode, Choices& c, bool allow_op
       else if (form_sel < 12) { m.base.rc = arc; m.base.id = pick_gp(false); m.index.rc = arc; m.index.id = pick_gp(true); m.scale = 1 << c.pick(4); m.disp = pick_disp(c, N); }
       else if (form_sel == 12) { m.index.rc = arc; m.index.id = pick_gp(true); m.scale = 1 << c.pick(4); m.disp = pick_disp(c, N); m.abs = true; }
       else if (form_sel == 13) { m.base.rc = RC::Rip; m.addr_bits = 64; m.disp = pick_disp(c, 1); }
-      else { m.abs = true; m.addr_bits = 64; m.disp = pick_disp(c, 1); }
+      else {
+        m.abs = true; m.addr_bits = 64; m.disp = pick_disp(c, 1);
+        // absolute addresses in [2^31, 2^32) are reachable in 64-bit mode only zero-extended, i.e. with an address-size prefix that the
+        // encoder inserts after the fact (derived from the picked value so that the choice sequence of older replay files is unchanged)
+        if (m.disp == 0x12345678) m.disp = 0x92345678LL; else if (m.disp == 0x40) m.disp = 0x80000040LL; else if (m.disp == -0x1234) m.disp = 0xFFFFEDCCLL; else if (m.disp == 129) m.disp = 0x80000000LL;
+      }
     } else {
       bool a16 = c.chance(1, 6) && !vsib;
       if (str_addr_bits) a16 = str_addr_bits == 16;
